@@ -1,4 +1,5 @@
 import TvCore.Props.C04
+import TvCore.Props.C04Socks
 #print axioms TV.C04.only_dropObj
 #print axioms TV.C04.only_dropAll
 #print axioms TV.C04.crash_frame
@@ -6,3 +7,17 @@ import TvCore.Props.C04
 #print axioms TV.C04.crash_stops
 #print axioms TV.C04.udp_unbound
 #print axioms TV.C04.listener_unbound
+#print axioms TV.C04.dropObj_binds
+#print axioms TV.C04.foldl_dropObj_binds
+#print axioms TV.C04.dropAll_binds
+#print axioms TV.C04.bindsOwned_of_B
+#print axioms TV.C04.crash_releases_binds
+#print axioms TV.C04.bounce_releases_binds
+#print axioms TV.C04.closeHalf_inv
+#print axioms TV.C04.erase_inv
+#print axioms TV.C04.hinv_dropObj
+#print axioms TV.C04.foldl_dropObj_socks
+#print axioms TV.C04.socksOwned_of_B
+#print axioms TV.C04.dropAll_releases_socks
+#print axioms TV.C04.crash_releases_socks
+#print axioms TV.C04.bounce_releases_socks
